@@ -9,7 +9,9 @@ from vlib.runner import hyp
 
 PROPERTY = 'C17'
 LEVEL = 'exploration'
-RULE = ('(server id, secret, key) triples: the three published vectors '
+RULE = ('Keys also in other valid DER encodings (bare PKCS#1, SPKI '
+        'without NULL parameters, BER long-form length). '
+'(server id, secret, key) triples: the three published vectors '
         '(Notch, jeb_, simon), ASCII / multi-byte UTF-8 / empty / 20-char '
         'ids, 16-byte and 0-64-byte secrets, fixture DER keys and random '
         'byte strings; searched inputs (a counter appended to the id until '
